@@ -13,7 +13,8 @@ TIERS = {
 }
 RULE = ('case i: an array-heavy program (array literals whose elements contain allocating calls, dynamic '
         'arrays with argv lengths, arrays passed down recursion, bool arrays over several bytes, library '
-        'routines called from the deepest frame, compound element assignment; every 4th case a time-travel '
+        'routines called from the deepest frame - also "lean" functions whose deepest call is write(int) next '
+        'to a live stack array - compound element assignment; every 4th case a time-travel '
         'program; every 5th case with a planted index/division fault) is first run with a generous stack; '
         'then the stack-size axis is ENUMERATED: every size 0..N+2 words where N is the first size that '
         'completes (N <= 90; larger needs are bisected and the window N-6..N+2 plus seeded smaller sizes is '
@@ -76,6 +77,9 @@ def make_case(seed, idx):
         kind = 'tt'
     elif idx % 7 == 0:
         p, argv = deep_library_prog(rnd, W)
+    elif idx % 7 == 5:
+        from .c17 import lean_prog
+        p, argv = lean_prog(rnd, W)
     else:
         cfg = heavy_cfg(rnd)
         cfg['W'] = W
